@@ -216,7 +216,7 @@ fn node_write_leaf_decode() {
 }
 
 // ---- same for a branch node
-// @ob props=C01,C05,C15 tier=parked cap=400 fns=Page::write_node,Node::size,Node::from_page,Branch::key,Page::branch_elements,BranchElement::key bound="branch node with 3 entries, keys of 2, 1 and 2 symbolic bytes, symbolic child page ids > 1" unwind=17
+// @ob props=C01,C05,C15 tier=quick cap=400 fns=Page::write_node,Node::size,Node::from_page,Branch::key,Page::branch_elements,BranchElement::key bound="branch node with 3 entries, keys of 2, 1 and 2 symbolic bytes, symbolic child page ids > 1" unwind=17
 #[kani::proof]
 #[kani::unwind(17)]
 fn node_write_branch_roundtrip() {
@@ -279,7 +279,7 @@ fn one_entry_node<'a>(k0: &'a [u8; 2], v0: &'a [u8; 1]) -> Node<'a> {
 
 // ---- C05-Ob3: Node::write frees the old run (pending, not reusable), takes a fresh run, records it, and the
 //      dirty page carries the node
-// @ob props=C05,C02,C10,C01 tier=parked cap=400 fns=Node::write,Node::allocate,Node::free_page,TxFreelist::free,TxFreelist::allocate,Page::write_node bound="one-entry leaf backed by run (7, 2 pages); tx id 9; high-water mark 20; empty free set; symbolic key / value bytes" unwind=5 flags="-Z unstable-options --cbmc-args --max-field-sensitivity-array-size 1024"
+// @ob props=C05,C02,C10,C01 tier=parked cap=400 fns=Node::write,Node::allocate,Node::free_page,TxFreelist::free,TxFreelist::allocate,Page::write_node bound="one-entry leaf backed by run (7, 2 pages); tx id 9; high-water mark 20; empty free set; symbolic key / value bytes" unwind=5
 #[kani::proof]
 #[kani::unwind(5)]
 fn node_write_reallocates() {
@@ -376,4 +376,5 @@ fn node_needs_merging_arith() {
     kani::cover!(cnt == 2 && !n.needs_merging());
     std::mem::forget(n);
 }
+
 
